@@ -184,7 +184,7 @@ def _cert_pipeline(pl, sd, fix, info, cid):
     open(cp, "wb").write(so)
     rc2, so2, se2 = run("dump-certurl", ["-i", cp], sd)
     certs = [info[p1["curve"] + "-leaf"]] + ([info[p1["curve"] + "-ca"]] if p1["ncerts"] == 2 else [])
-    return [{"case": cid, "kind": "certcli", "certs": certs, "ocsp": list(read(os.path.join(fix, "ocsp.der"))), "hassct": bool(p1["sct"]),
+    return [{"case": cid, "kind": "certcli", "params": "%s, %d certificate(s), %s" % (p1["curve"], p1["ncerts"], "-sctDir" if p1["sct"] else "no -sctDir"), "certs": certs, "ocsp": list(read(os.path.join(fix, "ocsp.der"))), "hassct": bool(p1["sct"]),
              "scts": [list(read(os.path.join(fix, "scts", "a.sct"))), list(read(os.path.join(fix, "scts", "b.sct")))] if p1["sct"] else [],
              "gen_exit": rc, "out": list(so), "dump_exit": rc2, "stderr": (se + se2).decode("latin1")[-300:]}]
 
@@ -403,6 +403,67 @@ def sig_cli(rep, pid):
             rep.violation("sigcli:%s:%s" % (c["ver"], w[:50]), "gen-bundle -> sign-bundle signatures-section -> dump-bundle (%s): %s [exits gen=%s sign=%s dump=%s marks=%s; %s]" % (
                 c["ver"], w, c["gen_exit"], c["sign_exit"], c["dump2_exit"], c["marks"], c["stderr"][-160:]), {"component": "cli", "event": {k: v for k, v in c.items() if k not in ("file", "files")}, "why": w})
     rep.add("cli_signatures_section", records=n, rejected=len(rejects))
+    return n
+
+
+def cert_cli(rep, pid):
+    """The command-line path of cert-chain writing (used by C17 too): gen-certurl (leaf alone / leaf + issuer, with / without
+    -sctDir, a leaf with / without an embedded SCT list) -> dump-certurl; the output must be ChainBytes of exactly the given
+    certificates, OCSP response and SCT files (Trace_Cli)."""
+    build_cli()
+    wd = workdir(pid)
+    fix = os.path.join(wd, "fixtures")
+    shutil.rmtree(fix, ignore_errors=True)
+    info = vh(["cli-fixtures", fix])[0]
+    scratch = vlib.fresh(os.path.join(wd, "scratch-cert"))
+    events = []
+    i = 0
+    for curve in ("p256", "p384", "p256-sctleaf"):
+        for nc in (1, 2):
+            for sct in (False, True):
+                i += 1
+                sd = vlib.fresh(os.path.join(scratch, "c%d" % i))
+                events += _cert_pipeline([{"tool": "gen-certurl", "p": {"ncerts": nc, "curve": curve, "sct": sct}}], sd, fix, info, "certcli%d" % i)
+                shutil.rmtree(sd, ignore_errors=True)
+    # the same logical input in two histories: the SCT files created in different orders (directory enumeration order is not
+    # an input), in directories whose names are plain or contain characters that mean something to a pattern matcher; on a
+    # tmpfs, where enumeration order follows creation order
+    base = "/dev/shm" if os.path.isdir("/dev/shm") and os.access("/dev/shm", os.W_OK) else scratch
+    pd = os.path.join(base, "verif-certpure-%d" % os.getpid())
+    shutil.rmtree(pd, ignore_errors=True)
+    try:
+        names = ["m.sct", "a.sct", "z.sct", "b.sct", "k.sct", "c.sct"]
+        for dn in ("scts", "scts[2024]", "scts*", "scts?x", "sc ts"):
+            outs = []
+            for order in (names, list(reversed(names)), sorted(names)):
+                d = os.path.join(pd, "h%d" % len(outs), dn)
+                os.makedirs(d)
+                for nm in order:
+                    open(os.path.join(d, nm), "wb").write(("sct " + nm).encode())
+                rc, so, se = run("gen-certurl", ["-pem", os.path.join(fix, "p256-cert1.pem"), "-ocsp", os.path.join(fix, "ocsp.der"), "-sctDir", d], scratch)
+                outs.append((rc, so))
+            i += 1
+            events.append({"case": "certpure%d" % i, "kind": "certpure", "params": "-sctDir named %r, six .sct files created in three different orders" % dn,
+                           "exits": [o[0] for o in outs], "outs": [list(o[1]) for o in outs], "gen_exit": outs[0][0], "dump_exit": 0, "out": list(outs[0][1]), "stderr": ""})
+    finally:
+        shutil.rmtree(pd, ignore_errors=True)
+    outp = os.path.join(wd, "certcli.ndjson")
+    cases = {}
+    with open(outp, "w") as f:
+        for e in events:
+            cases[e["case"]] = e
+            f.write(json.dumps(e) + "\n")
+    n, rejects, states = trace_validate("Trace_Cli", pid + "/certcli", outp, overrides=True, shards=4, timeout=3000)
+    rep.cov["states"] += states
+    rep.cov["transitions"] += states
+    rep.cov["traces_validated_against_impl"] += n
+    for rj in rejects:
+        c = cases[rj["case"]]
+        for w in rj["why"]:
+            rep.violation("certcli:%s:%s" % (c["params"], w[:50]), "gen-certurl %s -> dump-certurl: %s [exits gen=%s dump=%s; output %d bytes; %s]" % (c["params"], w, c["gen_exit"], c["dump_exit"], len(c["out"]), c["stderr"][-160:]),
+                          {"component": "cli", "params": c["params"], "why": w})
+    rep.add("cli_gen_certurl", records=n, rejected=len(rejects))
+    shutil.rmtree(scratch, ignore_errors=True)
     return n
 
 
